@@ -387,6 +387,13 @@ package contractcourt
 //@   site call newResolverID: assert arg(0) == ret(OutPoint)
 //@   // every restored HTLC output signs with ITS tweak: the slice stored in its sign descriptor views storage of its own
 //@   site store SignDescriptor.TapTweak: assert iterfresh(value)
+//@   // which restored value goes where: commit outputs get the control block of THEIR spend path, an HTLC output gets the first-level tweak
+//@   // in its sign descriptor and the second-level tweak in its own field, both looked up under the output's resolver id
+//@   site store SignDescriptor.ControlBlock nth 0: assert value == tapCase.CtrlBlocks.Val.CommitSweepCtrlBlock
+//@   site store SignDescriptor.ControlBlock nth 1: assert value == tapCase.CtrlBlocks.Val.RevokeSweepCtrlBlock
+//@   site store breachedOutput.secondLevelTapTweak: assert has(tapCase.TapTweaks.Val.BreachedSecondLevelHltcTweaks, ret(newResolverID)) &&
+//@        value == tapCase.TapTweaks.Val.BreachedSecondLevelHltcTweaks[ret(newResolverID)] &&
+//@        has(tapCase.TapTweaks.Val.BreachedHtlcTweaks, ret(newResolverID))
 //@
 //@ // ---- the chain watcher judges a spend with the revocation store as it is on disk NOW: it is re-read into the watcher's channel
 //@ // ---- object before the chain set is handed out (the watcher may hold its own copy of the channel state)
